@@ -6,7 +6,9 @@ Record bcase := {
   bc_events : list ev;
   bc_n : nat;
   bc_off : nat; bc_suf : nat;          (* the held string is frame[off .. len - suf) *)
-  bc_notes : list (list byte);         (* the strings as sent (what each item held when yielded) *)
+  bc_notes : list (list byte);         (* per delivered frame: the string as sent ([] when not held) *)
+  bc_mask : list bool;                 (* per delivered frame: the implementation holds a string of it
+                                          (false: a receive before the chain, an error reply, ...) *)
   bc_views : list (list (list byte));  (* implementation: after each item, every held string re-read *)
   bc_reads : list bool                 (* implementation: a transport read returned data during this item *)
 }.
@@ -21,6 +23,13 @@ Definition bmodel (c : bcase) :=
 
 Definition nnn_eqb := list_eqb (list_eqb (list_eqb N.eqb)).
 
+Fixpoint select {A} (mask : list bool) (l : list A) : list A :=
+  match mask, l with
+  | true :: m, x :: l' => x :: select m l'
+  | false :: m, _ :: l' => select m l'
+  | _, _ => []
+  end.
+
 Fixpoint prefixes {A} (n : nat) (l : list A) : list (list A) :=
   match n with O => [] | S n => prefixes n l ++ [firstn (S n) l] end.
 
@@ -32,9 +41,10 @@ Definition known (reads : list bool) : bool := existsb (fun b => b) (tl reads).
    a transport read (the known finding) *)
 Definition check (c : bcase) : N :=
   let m := bmodel c in
-  let mviews := map (fun x => map (note_of c) (snd x)) m in
+  let m := firstn (length (bc_views c)) m in
+  let mviews := map (fun x => map (note_of c) (select (bc_mask c) (snd x))) m in
   let mreads := map (fun x => snd (fst x)) m in
-  let spec := prefixes (length (bc_views c)) (bc_notes c) in
+  let spec := map (select (bc_mask c)) (prefixes (length (bc_views c)) (bc_notes c)) in
   let changed := negb (nnn_eqb spec (bc_views c)) in
   ((if nnn_eqb mviews (bc_views c) && list_eqb Bool.eqb mreads (bc_reads c) then 0 else 1) +
    (if changed then (if known (bc_reads c) then 4 else 2) else 0))%N.
